@@ -4,7 +4,7 @@ CONSTANTS
   OpenWait = 60000
   CfgHold = 9000
   Offers = {9000, 3000, 0}
-  SendClasses = {"OPEN", "OPEN-version", "OPEN-as", "OPEN-id", "OPEN-hold", "OPEN-trunc", "KA", "UPD", "UPD-eor", "UPD-reset", "UPD-tolerated", "NOTIF", "REFRESH", "HDR-marker", "HDR-length", "HDR-type", "EOF"}
+  SendClasses = {"OPEN", "OPEN-version", "OPEN-as", "OPEN-id", "OPEN-hold", "OPEN-trunc", "KA", "UPD", "UPD-eor", "UPD-reset", "UPD-tolerated", "NOTIF", "REFRESH", "OPER", "HDR-marker", "HDR-length", "HDR-type", "EOF"}
   Ticks = {40, 150, 1000, 3100, 10000, 61000}
   TearCodes = {2, 4}
   Budget = 4
